@@ -15,8 +15,8 @@ ALPHABETS = {
                "</x>", "<![CDATA[x]]>", "&#x41;", "xmlns:p=\"u\"", "'", "\\n", "a,\n]"],
     "long": ["a" * 64, "ab " * 100, "\u00e9" * 300, "x" * 5000, "<&>" * 40, "word " * 25],
 }
-NAME_POOL = ["a", "b", "c", "d", "e", "f"]
-PREFIX_POOL = ["p", "q", "r"]
+NAME_POOL = ["a", "b", "c", "d", "e", "f", "A", "ab", "B"]     # case variants and a name that extends another
+PREFIX_POOL = ["p", "q", "r", "xml", "x-y", "P"]
 URI_POOL = ["u:1", "u:2", "http://x/3", "u:4", "http://x/3/", "u:1/"]
 ATTR_KEYS = ["id", "k", "scope", "system", "xml:lang", "{u:1}a", "{http://x/3}b", "{u:2}a"]
 
